@@ -528,6 +528,97 @@ fn run_airdrop(cx: &mut Ctx) -> Result<(), String> {
     Ok(())
 }
 
+// ------------------------------------------------------------------ vending minters: full handler model
+/// Sender sweeps over the ten reserved handlers of each of the six vending minters in the
+/// sale world (payment address set), before and after the start; every step is printed
+/// as a SaleCorr `sstep`, so MinterVending.step — the model the Part 1 theorems are about
+/// — is compared with the real handler on exactly these calls.
+fn run_vending_handler_tie(cx: &mut Ctx, sale_cases: &mut Vec<String>) {
+    use crate::w_sale::{self as ws, Op, SaleCfg, SaleWorld};
+    let native = |a: u128| vec![(NATIVE.to_string(), a)];
+    for variant in 0..6usize {
+        let mut cfg = SaleCfg::basic(variant);
+        cfg.payment_address = true;
+        let mut w = match SaleWorld::new(cfg) {
+            Ok(w) => w,
+            Err(e) => {
+                cx.rep.notes.push(format!("unexercised: sale world for variant {}: {}", variant, e));
+                continue;
+            }
+        };
+        let vname = w.v.name;
+        let flex = vname.contains("flex");
+        let init = w.init_state_coq();
+        let init_bal = w.balances_coq();
+        let who: [(&str, &str); 5] =
+            [("stranger", ws::STRANGER), ("buyer", ws::BUYERS[0]), ("second-buyer", ws::BUYERS[1]), ("payment-address", ws::PAYADDR), ("creator", ws::CREATOR)];
+        let mk = |kind: &str, w: &str| -> Op {
+            let who = w.to_string();
+            match kind {
+                "update_mint_price" => Op::UpdateMintPrice { who, price: 90 },
+                "update_mint_price_lower" => Op::UpdateMintPrice { who, price: 85 },
+                "update_start_time" => Op::UpdateStartTime { who, secs: 3100, nanos: 0 },
+                "update_start_trading_time" => Op::UpdateStartTradingTime { who, t: Some((3300, 0)) },
+                "update_start_trading_time_none" => Op::UpdateStartTradingTime { who, t: None },
+                "update_per_address_limit" => Op::UpdatePerAddressLimit { who, limit: 2 },
+                "set_whitelist" => Op::SetWhitelist { who, kind: if flex { 2 } else { 0 }, start_in: 500, end_in: 900, price: 60, ibc: false },
+                "mint_to" => Op::MintTo { who, recipient: ws::BUYERS[1].into(), funds: vec![] },
+                "mint_for" => Op::MintFor { who, token_id: 3, recipient: ws::BUYERS[1].into(), funds: vec![] },
+                "mint_for_later" => Op::MintFor { who, token_id: 5, recipient: ws::BUYERS[1].into(), funds: vec![] },
+                "update_discount_price" => Op::UpdateDiscountPrice { who, price: 80 },
+                "remove_discount_price" => Op::RemoveDiscountPrice { who },
+                "burn_remaining" => Op::BurnRemaining { who },
+                _ => unreachable!(),
+            }
+        };
+        let phases: [(u64, &[&str]); 3] = [
+            (100, &["update_mint_price", "update_start_time", "update_start_trading_time", "update_per_address_limit", "set_whitelist", "mint_to", "mint_for"]),
+            (3200, &["update_discount_price", "update_mint_price_lower", "update_start_trading_time_none", "update_per_address_limit", "mint_to", "mint_for_later", "set_whitelist"]),
+            (3200 + 4000, &["remove_discount_price", "burn_remaining"]),
+        ];
+        let mut steps = vec![];
+        for (at, kinds) in phases {
+            w.run(&Op::At { secs: at, nanos: 0 });
+            let _ = native(0);
+            for kind in kinds {
+                for (role, addr) in who {
+                    let op = mk(kind, addr);
+                    let out = w.run(&op);
+                    if !out.is_minter_step {
+                        continue;
+                    }
+                    cx.rep.evaluations += 1;
+                    let principal = addr == ws::CREATOR;
+                    cx.rep.bump(&format!("{}|handler-model:{}|{}|{}", vname, kind, if principal { "principal" } else { "outsider" }, if out.ok { "ok" } else { "err" }));
+                    cx.nontrivial.insert(format!("{}|handler-model|{}|{}|{}", vname, at, kind, role));
+                    let base_kind = kind.trim_end_matches("_lower").trim_end_matches("_later").trim_end_matches("_none");
+                    let row = RowId { ck: CK::Minter(MinterKind::ALL[variant + 1]), state: if at == 100 { "fresh".into() } else { "started".into() }, kind: base_kind.to_string(), role: Some(role.to_string()) };
+                    if out.ok && !principal {
+                        cx.violation(
+                            format!("C05:{}:{}:{}-succeeded", vname, base_kind, role),
+                            format!("{} (sale world, t0+{}s): {:?} succeeded, but the operation is reserved to the minter admin (creator)", vname, at, op),
+                            &row,
+                        );
+                    }
+                    if let Some(e) = &out.err {
+                        if e.starts_with("STATE-CHANGED-ON-FAILURE") {
+                            cx.violation(format!("C05:{}:{}:rejected-call-changed-state", vname, base_kind), format!("{}: {:?}: {}", vname, op, e), &row);
+                        }
+                    }
+                    if principal {
+                        let e = cx.exercised.entry((format!("{} (handler model)", vname), base_kind.to_string())).or_insert(false);
+                        *e = *e || out.ok;
+                    }
+                    if let Some(s) = out.coq {
+                        steps.push(s);
+                    }
+                }
+            }
+        }
+        sale_cases.push(ws::case_coq(&mut w, &init, &init_bal, &steps));
+    }
+}
+
 /// which states get the full role sweep for a message in the quick tier; elsewhere the
 /// principals and two outsiders are tried
 fn full_sweep(ck: CK, state: &str, kind: &str, thorough: bool) -> bool {
@@ -676,6 +767,9 @@ pub fn run(a: &Args) {
             }
         }
     }
+    // ---- Part 1 tie: the reserved handlers of the vending minters against MinterVending.step
+    let mut sale_cases = vec![];
+    run_vending_handler_tie(&mut cx, &mut sale_cases);
     // ---- rows whose principal never succeeded teach nothing: say so
     let un: Vec<String> = cx.exercised.iter().filter(|(_, v)| !**v).map(|((c, m), _)| format!("{}:{}", c, m)).collect();
     cx.rep.notes.push(format!(
@@ -688,7 +782,8 @@ pub fn run(a: &Args) {
     cx.rep.distinct_nontrivial = cx.nontrivial.len() as u64;
     cx.rep.rule = "distinct (contract, state, message, role) calls that succeeded or were rejected for a reason other than parsing / attached funds".into();
     let Ctx { mut rep, cases, .. } = cx;
-    out.write_cases("C05", "From LP Require Import Auth C05Corr.", "c05_case", "c05_check", &cases, 6, &mut rep);
+    out.write_cases("C05", "From LP Require Import Auth C05Corr.", "c05_case", "c05_check", &cases, 5, &mut rep);
+    out.write_cases("C05v", "From LP Require Import Num Pay Sg1 Bank MinterVending SaleCorr.", "scase", "sale_check", &sale_cases, 2, &mut rep);
     out.finish(&rep);
     println!("C05: {} rows, {} cases, {} calls, {} violations", nrows, cases.len(), rep.evaluations, rep.violations.len());
 }
